@@ -152,3 +152,90 @@ e2e_small!(e2e_small_gen_capture, gen_capture, |o, _p| o);
 e2e_small!(e2e_small_gen_simple, gen_simple, |o, _p| !o);
 e2e_small!(e2e_small_gen_simple_no_promote, gen_simple_no_promote, |o, p| !o && !p);
 e2e_small!(e2e_small_gen_simple_promote, gen_simple_promote, |o, p| !o && p);
+
+// ------------------------------------------------------------------------------------------------
+// C01 item 4 / C07 / C09: the public glue around MoveGenImpl (macro-generated semilegal::* and
+// legal::*, has_legal_moves, san_candidates), on ALL boards, with the generator methods and the
+// legality decision imported by contract: each generator method is replaced by a stub that pushes
+// one marker move naming (colour it was instantiated for, which method, a symbolic tag) into its
+// sink; Checker::is_legal is a free boolean of the move (the parity of the tag).
+// ------------------------------------------------------------------------------------------------
+static mut TAG: u8 = 0;
+fn marker(white: bool, which: u8) -> Move {
+    unsafe { Move::new_unchecked(MoveKind::Simple, ab::cell(rs::code(white, rs::KNIGHT)), ab::coord(which), ab::coord(TAG & 63)) }
+}
+macro_rules! gen_stub {
+    ($name:ident, $which:expr) => {
+        fn $name<'a, P: MaybeMovePush, C: generic::Color>(this: &mut MoveGenImpl<'a, P, C>) -> Result<(), P::Err> where 'a: 'a {
+            this.dst.push(marker(C::COLOR == Color::White, $which))
+        }
+    };
+}
+gen_stub!(stub_gen_all, 0);
+gen_stub!(stub_gen_capture, 1);
+gen_stub!(stub_gen_simple, 2);
+gen_stub!(stub_gen_simple_no_promote, 3);
+gen_stub!(stub_gen_simple_promote, 4);
+gen_stub!(stub_gen_for_has_legal_moves, 5);
+fn stub_san_candidates<'a, P: MaybeMovePush, C: generic::Color>(this: &mut MoveGenImpl<'a, P, C>, _p: Piece, _d: Coord) -> Result<(), P::Err> where 'a: 'a {
+    this.dst.push(marker(C::COLOR == Color::White, 6))
+}
+fn stub_san_pawn_capture_candidates<'a, P: MaybeMovePush, C: generic::Color>(this: &mut MoveGenImpl<'a, P, C>, _s: File, _d: File, _p: Option<PromotePiece>) -> Result<(), P::Err> where 'a: 'a {
+    this.dst.push(marker(C::COLOR == Color::White, 7))
+}
+fn stub_is_legal_tag<'a, P: crate::legal::Prechecker>(_c: &Checker<'a, P>, mv: Move) -> bool where 'a: 'a { mv.dst().index() & 1 == 1 }
+
+pub struct OneSink { pub got: Option<Move>, pub n: u32 }
+impl MovePush for OneSink { fn push(&mut self, m: Move) { self.got = Some(m); self.n += 1; } }
+
+harness! {
+    #[kani::unwind(14)]
+    #[kani::stub(MoveGenImpl::gen_all, stub_gen_all)]
+    #[kani::stub(MoveGenImpl::gen_capture, stub_gen_capture)]
+    #[kani::stub(MoveGenImpl::gen_simple, stub_gen_simple)]
+    #[kani::stub(MoveGenImpl::gen_simple_no_promote, stub_gen_simple_no_promote)]
+    #[kani::stub(MoveGenImpl::gen_simple_promote, stub_gen_simple_promote)]
+    #[kani::stub(MoveGenImpl::gen_for_has_legal_moves, stub_gen_for_has_legal_moves)]
+    #[kani::stub(MoveGenImpl::san_candidates, stub_san_candidates)]
+    #[kani::stub(MoveGenImpl::san_pawn_capture_candidates, stub_san_pawn_capture_candidates)]
+    #[kani::stub(crate::legal::Checker::is_legal, stub_is_legal_tag)]
+    #[kani::stub(crate::attack::rook, crate::verif_anyboard::stub_rook)]
+    #[kani::stub(crate::attack::bishop, crate::verif_anyboard::stub_bishop)]
+    fn c01_public_generator_glue() {
+        let b = ab::any_board();
+        ab::assume_one_king_each(&b);
+        let tag = vk::any_u8(); vk::assume(tag < 64);
+        unsafe { TAG = tag; }
+        let white = b.r.side == Color::White;
+        let legal_tag = tag & 1 == 1;
+        let which = vk::any_u8(); vk::assume(which < 5);
+        // semilegal::<g>_into: the method of the same name, instantiated for the side to move, into the caller's sink
+        let mut s = OneSink { got: None, n: 0 };
+        match which { 0 => semilegal::gen_all_into(&b, &mut s), 1 => semilegal::gen_capture_into(&b, &mut s), 2 => semilegal::gen_simple_into(&b, &mut s),
+                      3 => semilegal::gen_simple_no_promote_into(&b, &mut s), _ => semilegal::gen_simple_promote_into(&b, &mut s) }
+        assert!(s.n == 1 && s.got == Some(marker(white, which)));
+        // semilegal::<g>: the same moves, as a list
+        let l = match which { 0 => semilegal::gen_all(&b), 1 => semilegal::gen_capture(&b), 2 => semilegal::gen_simple(&b),
+                              3 => semilegal::gen_simple_no_promote(&b), _ => semilegal::gen_simple_promote(&b) };
+        assert!(l.len() == 1 && l[0] == marker(white, which));
+        // legal::<g>: that list filtered by the legality decision, nothing else
+        let ll = match which { 0 => legal::gen_all(&b), 1 => legal::gen_capture(&b), 2 => legal::gen_simple(&b),
+                               3 => legal::gen_simple_no_promote(&b), _ => legal::gen_simple_promote(&b) };
+        assert!(ll.len() == if legal_tag { 1 } else { 0 });
+        if legal_tag { assert!(ll[0] == marker(white, which)); }
+        // has_legal_moves: "the filtered, refusing run of gen_for_has_legal_moves was refused"
+        assert!(has_legal_moves(&b) == legal_tag);
+        assert!(b.has_legal_moves() == legal_tag);
+        // SAN candidate wrappers: the method for the side to move, through the legality filter
+        let mut s6 = OneSink { got: None, n: 0 };
+        san_candidates(&b, Piece::Queen, ab::coord(0), &mut s6);
+        assert!(s6.n == if legal_tag { 1 } else { 0 });
+        if legal_tag { assert!(s6.got == Some(marker(white, 6))); }
+        let mut s7 = OneSink { got: None, n: 0 };
+        san_pawn_capture_candidates(&b, File::A, File::B, None, &mut s7);
+        assert!(s7.n == if legal_tag { 1 } else { 0 });
+        if legal_tag { assert!(s7.got == Some(marker(white, 7))); }
+        cover!(legal_tag && which == 4 && !white);
+        cover!(!legal_tag);
+    }
+}
